@@ -171,6 +171,7 @@ package brontide
 //@   site call WriteMessage: domain c.noise.sendCipher.nonce < 999
 //@   site call Flush: domain len(c.noise.nextHeaderSend) <= 18 && len(c.noise.nextBodySend) <= 65535 + 16
 //@   site call WriteMessage nth 0: assert arg(1) == b && len(b) <= 65535
-//@   site call WriteMessage nth 1: assert arg(1) == subslice(b, bytesWritten, bytesWritten + chunkSize) &&
-//@        (0 <= bytesWritten && bytesWritten <= len(b) ==> bytesWritten + chunkSize <= len(b) && chunkSize <= 65535)
+//@   site call WriteMessage nth 1 as chunk: assert 0 <= bytesWritten && bytesWritten <= len(b) ==> arg(1) == subslice(b, bytesWritten, bytesWritten + chunkSize)
+//@   site call WriteMessage nth 1 as bound: assert 0 <= bytesWritten && bytesWritten <= len(b) ==> bytesWritten + chunkSize <= len(b)
+//@   site call WriteMessage nth 1 as size: assert 0 <= bytesWritten && bytesWritten <= len(b) ==> chunkSize <= 65535
 //@   site call Flush nth 1: assert ret(WriteMessage, 1) == nil
